@@ -6,6 +6,9 @@
 //        xss_drv rnd  <count> <maxbytes> <shard> <nshards> <rid>...     grammar-guided random strings
 //        xss_drv one  <rid> <hex-bytes>                                 single input (replay / probes)
 //        xss_drv rules <rid>                                            print the Reset line only
+//        xss_drv ent  <maxv> <ctx> <shard> <nshards> <rid>...           every "&" w ";" over the character classes a lenient
+//                     number parser might swallow: w = "#" v with |v| <= maxv, and w without leading "#" with |w| <= maxv-1;
+//                     ctx 0: in text position (x&w;y), ctx 1: inside an attribute value (<b t="&w;"/>)
 //        xss_drv enc  <pairstep> <ctx> <shard> <nshards>                every charset name the code can be configured with
 //                     x every byte 00..FF embedded in harmless text (ctx 1: also inside <b>..</b>); multi-byte charsets:
 //                     every <pairstep>-th pair (lead >= 0x80, any second byte); expected bits from iconv(3)
@@ -75,6 +78,7 @@ static std::vector<attr_d> catalogue()
 	a=mk("br","clear","alts",18); a.alts.push_back("all"); a.alts.push_back("left"); a.regex="(all|left)"; c.push_back(a);
 	a=mk("i","checked","bool",19); c.push_back(a);
 	a=mk("a","src","abs",20); a.sch.push_back("http"); c.push_back(a);
+	a=mk("b","t","cset",21); for(int i=0;i<256;i++) if(i!=10) a.set+=char(i); a.regex=".*"; c.push_back(a);   // any text (entity sweep inside a value)
 	return c;
 }
 
@@ -193,7 +197,7 @@ static ruleset make_rules(int rid)
 		rs.ents.push_back("a");
 		for(size_t i=0;i<cat.size();i++) {
 			attr_d const &a=cat[i];
-			if((a.tag=="a" && (a.name=="href" || a.name=="c" || a.name=="title" || a.name=="name")) || (a.tag=="b" && a.name=="c"))
+			if((a.tag=="a" && (a.name=="href" || a.name=="c" || a.name=="title" || a.name=="name")) || (a.tag=="b" && (a.name=="c" || a.name=="t")))
 				rs.attrs.push_back(a);
 		}
 		build(rs);
@@ -646,6 +650,35 @@ int main(int argc,char **argv)
 	if(mode=="one") {
 		ruleset rs=make_rules(atoi(argv[2]));
 		emit(rs,argc>3?unhex(argv[3]):std::string());
+		tr.close(); return 0;
+	}
+	if(mode=="ent") {
+		if(argc<7) { std::cerr<<"ent <maxv> <ctx> <shard> <nshards> <rid>..."<<std::endl; return 2; }
+		int maxv=atoi(argv[2]),ctx=atoi(argv[3]),shard=atoi(argv[4]),nshards=atoi(argv[5]);
+		static const char al[]="&#xX019afAFg;+- \t._\xe9";
+		int const na=sizeof(al)-1;
+		for(int i=6;i<argc;i++) {
+			ruleset rs=make_rules(atoi(argv[i]));
+			long count=0;
+			for(int pass=0;pass<2;pass++) {            // pass 0: w = "#" v ; pass 1: w does not start with "#"
+				int maxlen= pass==0 ? maxv : maxv-1;
+				std::vector<int> ix;
+				for(int len=0;len<=maxlen;len++) {
+					ix.assign(len,0);
+					for(;;) {
+						bool skip= pass==1 && len>0 && al[ix[0]]=='#';
+						if(!skip && count++%nshards==shard) {
+							std::string w= pass==0 ? "#" : "";
+							for(int k=0;k<len;k++) w+=al[ix[k]];
+							emit(rs, ctx==0 ? "x&"+w+";y" : "<b t=\"&"+w+";\"/>");
+						}
+						int p=len-1;
+						while(p>=0 && ++ix[p]==na) { ix[p]=0; p--; }
+						if(p<0) break;
+					}
+				}
+			}
+		}
 		tr.close(); return 0;
 	}
 	if(mode=="enc") {
